@@ -45,6 +45,12 @@ type raftReplica struct {
 	lag     time.Duration
 	net     *raftNet
 	started int
+	// delivered is the highest height handed over on Commit() since the last start (executed or still queued);
+	// mustReach is the highest height that was delivered but not executed when the replica crashed: those entries
+	// are committed and in its own log, so after the restart with applied = executed height they have to be
+	// delivered again ("no entry that was not executed is skipped")
+	delivered uint64
+	mustReach uint64
 }
 
 type raftPeerMgr struct {
@@ -236,6 +242,11 @@ func (r *raftReplica) start(t *rapid.T, vp map[uint64]*pb.VpInfo) {
 				if ev == nil {
 					continue
 				}
+				r.net.mu.Lock()
+				if h := ev.Block.BlockHeader.Number; h > r.delivered {
+					r.delivered = h
+				}
+				r.net.mu.Unlock()
 				if lag > 0 {
 					select {
 					case <-time.After(lag):
@@ -264,9 +275,13 @@ func (r *raftReplica) crash() {
 	n := r.node
 	r.alive = false
 	stop := r.stop
+	delivered := r.delivered
 	r.net.mu.Unlock()
 	close(stop)
 	n.Stop()
+	if executed := r.stub.chainMeta().Height; delivered > executed && delivered > r.mustReach {
+		r.mustReach = delivered
+	}
 	time.Sleep(60 * time.Millisecond) // let the run loop observe the cancellation before the files are released
 	etcdraft.VerifCloseStorage(n.(*etcdraft.Node))
 }
@@ -325,6 +340,8 @@ func c20RaftProperty(t *rapid.T) {
 	keys := []*sim.Key{sim.KeyFor("ord-a"), sim.KeyFor("ord-b")}
 	next := map[int]uint64{}
 	restarts := 0
+	skippedAfterRestart := 0
+	crashWithQueued := 0
 	inconclusive := ""
 	rounds := rapid.IntRange(2, 5).Draw(t, "rounds")
 	for rd := 0; rd < rounds && inconclusive == ""; rd++ {
@@ -356,6 +373,9 @@ func c20RaftProperty(t *rapid.T) {
 			victim := reps[rapid.IntRange(0, size-1).Draw(t, "victim")]
 			ops = append(ops, fmt.Sprintf("crash replica %d at executed height %d, restart with applied=%d @%dms", victim.id, victim.stub.chainMeta().Height, victim.stub.chainMeta().Height, time.Since(processStart).Milliseconds()))
 			victim.crash()
+			if victim.mustReach > victim.stub.chainMeta().Height {
+				crashWithQueued++
+			}
 			time.Sleep(time.Duration(rapid.IntRange(0, 150).Draw(t, "downMs")) * time.Millisecond)
 			victim.start(t, vp)
 			restarts++
@@ -377,11 +397,20 @@ func c20RaftProperty(t *rapid.T) {
 		time.Sleep(50 * time.Millisecond)
 	}
 	time.Sleep(100 * time.Millisecond)
+	var violations []string
+	if inconclusive == "" {
+		for _, r := range reps {
+			if h := r.stub.chainMeta().Height; r.mustReach > h {
+				skippedAfterRestart++
+				violations = append(violations, fmt.Sprintf("%s crashed with block %d delivered but not executed; restarted with applied = executed height it is still at height %d after the network healed: log entries that were not executed were skipped", r.stub.name, r.mustReach, h))
+			}
+		}
+	}
 	for _, r := range reps {
+		r.mustReach = 0 // the teardown crash is not a restart
 		r.crash()
 	}
 	// oracle
-	var violations []string
 	var histories []string
 	for _, r := range reps {
 		r.stub.mu.Lock()
@@ -428,6 +457,10 @@ func c20RaftProperty(t *rapid.T) {
 	if net.dropped+net.duplicated+net.delayed > 0 {
 		cls = append(cls, "raft-message-faults")
 	}
+	if crashWithQueued > 0 {
+		cls = append(cls, "raft-crash-with-delivered-unexecuted-blocks")
+	}
+	_ = skippedAfterRestart
 	st.Case(nt, cls...)
 	st.AddExtra("raft_runs", 1)
 	st.AddExtra("raft_blocks", int(maxH-1))
